@@ -67,6 +67,10 @@ func (f *FnVC) call(v ssa.Value, c *ssa.CallCommon, ins ssa.Instruction) {
 		ct = f.g.findExtern(name)
 	} else {
 		callee = c.StaticCallee()
+		curClosure = nil
+		if mc, ok := c.Value.(*ssa.MakeClosure); ok {
+			curClosure = mc
+		}
 		if callee != nil && callee.Pkg != nil && callee.Pkg.Pkg.Path() == "sync/atomic" && f.atomicOp(v, callee, c, pos) {
 			return
 		}
@@ -103,8 +107,13 @@ func (f *FnVC) call(v ssa.Value, c *ssa.CallCommon, ins ssa.Instruction) {
 			}
 		}
 	}
+	argVals = nil
+	if c.IsInvoke() {
+		argVals = append(argVals, c.Value)
+	}
 	for _, a := range c.Args {
 		args = append(args, f.val(a))
+		argVals = append(argVals, a)
 	}
 	if ct == nil && callee != nil && f.g.isRepoFn(callee) && callee.Synthetic != "" {
 		// wrappers/thunks: look through to the wrapped method when possible
@@ -232,6 +241,80 @@ func (f *FnVC) bindResults(v ssa.Value, sig *types.Signature, given []TV, names 
 
 var selfVal TV
 
+// curClosure: the closure value being called (its bindings give meaning to the callee's free variables)
+var curClosure *ssa.MakeClosure
+
+// argVals: SSA values of the arguments of the call being translated (for higher-order externs)
+var argVals []ssa.Value
+
+// applyCalls: a higher-order extern (`calls fn`) runs the closure passed as parameter fn some number of times:
+// its effect on memory is the closure's own assigns set (the closure is verified against its contract separately).
+func (f *FnVC) applyCalls(ct *Contract, args []TV, vals []ssa.Value) {
+	idx := -1
+	for i, p := range ct.Params {
+		if p.Name == ct.Calls {
+			idx = i
+		}
+	}
+	if idx < 0 || idx >= len(vals) {
+		f.havocAll()
+		return
+	}
+	mc, ok := vals[idx].(*ssa.MakeClosure)
+	var fn *ssa.Function
+	if ok {
+		fn, _ = mc.Fn.(*ssa.Function)
+	} else if fv, ok := vals[idx].(*ssa.Function); ok {
+		fn = fv
+	}
+	if fn == nil {
+		f.havocAll()
+		return
+	}
+	c2 := f.g.contractFor(fn)
+	if c2 == nil || c2.AssignsAll {
+		f.havocAll()
+		return
+	}
+	f.trusted["extern "+ct.Key+" invokes "+fn.Name()+" only with arguments satisfying its requires; its effect is that closure's assigns set"] = true
+	env := f.baseEnv()
+	env.pkg = c2.Pkg
+	env.st = f.st
+	env.old = f.st
+	for _, p := range fn.Params {
+		tv := f.tv(f.freshConst("cbarg", f.sorts.sortOf(p.Type())), p.Type())
+		env.vars[p.Name()] = tv
+	}
+	if ok {
+		for i, fv := range fn.FreeVars {
+			b := mc.Bindings[i]
+			if _, isPtr := b.Type().Underlying().(*types.Pointer); isPtr {
+				loc := f.resolveLoc(b)
+				env.vars[fv.Name()] = f.tv(f.loadLoc(loc, f.st), loc.ty)
+			}
+		}
+	}
+	for _, a := range c2.Assigns {
+		for _, tg := range f.assignTargets(env, a.E) {
+			f.havocTarget(tg)
+		}
+	}
+	for _, sc := range c2.Sets {
+		name := ""
+		switch tg := sc.Target.(type) {
+		case SIdent:
+			name = tg.Name
+		case SIndex:
+			if id, ok := tg.X.(SIdent); ok {
+				name = id.Name
+			}
+		}
+		if h, _, ok := f.ghostHeap(name); ok {
+			f.havocTarget(target{heap: h, whole: true})
+		}
+	}
+}
+
 func (f *FnVC) applyContract(ct *Contract, callee *ssa.Function, sig *types.Signature, args []TV, v ssa.Value, pos token.Pos, name string) {
 	short := strings.TrimPrefix(name, f.g.modPath+"/")
 	env := f.baseEnv()
@@ -239,6 +322,19 @@ func (f *FnVC) applyContract(ct *Contract, callee *ssa.Function, sig *types.Sign
 		env.pkg = ct.Pkg
 	}
 	env.lazy = nil
+	if mc := curClosure; mc != nil && callee != nil && len(callee.FreeVars) == len(mc.Bindings) {
+		env.lazy = func(name string, st *State) (TV, bool) {
+			for i, fv := range callee.FreeVars {
+				if fv.Name() == name {
+					if _, isPtr := mc.Bindings[i].Type().Underlying().(*types.Pointer); isPtr {
+						loc := f.resolveLoc(mc.Bindings[i])
+						return f.tv(f.loadLoc(loc, st), loc.ty), true
+					}
+				}
+			}
+			return TV{}, false
+		}
+	}
 	// parameter names
 	if callee != nil && len(callee.Params) == len(args) && !ct.Extern {
 		for i, p := range callee.Params {
@@ -303,6 +399,9 @@ func (f *FnVC) applyContract(ct *Contract, callee *ssa.Function, sig *types.Sign
 			f.havocTarget(tg)
 		}
 	}
+	if ct.Calls != "" {
+		f.applyCalls(ct, args, argVals)
+	}
 	if !ct.HasAssign && ct.Extern && !ct.NoHavoc {
 		// extern with no frame: treat like an unspecified extern
 		pk := ""
@@ -317,7 +416,7 @@ func (f *FnVC) applyContract(ct *Contract, callee *ssa.Function, sig *types.Sign
 	out := f.bindResults(v, sig, given, nil)
 	post := f.baseEnv()
 	post.pkg = env.pkg
-	post.lazy = nil
+	post.lazy = env.lazy
 	for k, val := range env.vars {
 		post.vars[k] = val
 	}
